@@ -209,11 +209,19 @@ impl CellOccupancyMatrix {
 
     /// Determines whether the specified row contains any items
     pub fn row_is_occupied(&self, row_index: usize) -> bool {
+        // A matrix with no columns stores no rows at all: such a row is trivially unoccupied
+        if row_index >= self.inner.rows() {
+            return false;
+        }
         self.inner.iter_row(row_index).any(|cell| !matches!(cell, CellOccupancyState::Unoccupied))
     }
 
     /// Determines whether the specified column contains any items
     pub fn column_is_occupied(&self, column_index: usize) -> bool {
+        // A matrix with no rows stores no columns at all: such a column is trivially unoccupied
+        if column_index >= self.inner.cols() {
+            return false;
+        }
         self.inner.iter_col(column_index).any(|cell| !matches!(cell, CellOccupancyState::Unoccupied))
     }
 
